@@ -182,7 +182,7 @@ class Socket(base_socket.BaseSocket):
             pkt = websocket_wait()
             decoded_pkt = packet.Packet(encoded_packet=pkt)
             if decoded_pkt.packet_type != packet.PING or \
-                    decoded_pkt.data != 'probe':
+                    decoded_pkt.data != 'probe' or self.upgraded:
                 self.server.logger.info(
                     '%s: Failed websocket upgrade, no PING packet', self.sid)
                 self.upgrading = False
@@ -192,7 +192,7 @@ class Socket(base_socket.BaseSocket):
 
             pkt = websocket_wait()
             decoded_pkt = packet.Packet(encoded_packet=pkt)
-            if decoded_pkt.packet_type != packet.UPGRADE:
+            if decoded_pkt.packet_type != packet.UPGRADE or self.upgraded:
                 self.server.logger.info(
                     ('%s: Failed websocket upgrade, expected UPGRADE packet, '
                      'received %s instead.'),
